@@ -17,14 +17,39 @@ LAYOUTS = ("contig", "transposed", "step", "offset", "expand", "chlast", "rowste
 # "unbatched" (batch dimension dropped) is drawn separately: an invalid rank on the pinned tree
 
 
+_FILL = None
+
+
 def _rnd(rng, shape, dtype, scale):
     a = rng.standard_normal(shape) * scale
+    fill = _FILL
+    if fill == "zeros":
+        a = np.zeros(shape)
+    elif fill == "ones":
+        a = np.ones(shape)
+    elif fill == "ints":
+        a = np.rint(a * 4)
+    elif fill == "naninf" and a.size:
+        f = a.reshape(-1)
+        f[0] = np.nan
+        f[-1] = np.inf
+        if f.size > 2:
+            f[f.size // 2] = -np.inf
     return torch.from_numpy(np.ascontiguousarray(a.astype(NPDT[dtype])))
 
 
 def make_tensor(spec):
     """Returns (base, view): `view` is what is passed to the library, `base`
     owns the storage (snapshotted whole, so writes outside the view show)."""
+    global _FILL
+    _FILL = spec.get("fill")          # value structure: None (normal) | zeros | ones | ints | naninf
+    try:
+        return _make_tensor(spec)
+    finally:
+        _FILL = None
+
+
+def _make_tensor(spec):
     shape = list(spec["shape"])
     dtype = spec["dtype"]
     layout = spec.get("layout", "contig")
@@ -200,22 +225,35 @@ def _cmp_arr(x, y, mode, tol, scale, path):
     with np.errstate(all="ignore"):
         xd = x.astype(np.float64)
         yd = y.astype(np.float64)
-        if np.isnan(xd).any() != np.isnan(yd).any():
-            return "%s: NaN pattern differs" % path
-        d = float(np.nanmax(np.abs(xd - yd)))
-        sc = scale if scale is not None else max(1e-30, float(np.nanmax(np.abs(yd))))
+        fx, fy = np.isfinite(xd), np.isfinite(yd)
+        if not np.array_equal(fx, fy) or not np.array_equal(
+                np.nan_to_num(xd[~fx], nan=0.5, posinf=1.0, neginf=-1.0),
+                np.nan_to_num(yd[~fy], nan=0.5, posinf=1.0, neginf=-1.0)):
+            return "%s: NaN/inf pattern differs" % path
+        if not fx.any():
+            return None
+        d = float(np.max(np.abs(xd[fx] - yd[fy])))
+        sc = scale if scale is not None else max(1e-30, float(np.max(np.abs(yd[fy]))))
     if not d <= tol * sc:
         return "%s: max|diff|=%.3g > %.3g (tol %.3g * scale %.3g)" % (
             path, d, tol * sc, tol, sc)
     return None
 
 
+def _finite_max(a):
+    if not a.size:
+        return 0.0
+    with np.errstate(all="ignore"):
+        f = np.abs(a[np.isfinite(a)])
+    return float(np.max(f)) if f.size else 0.0
+
+
 def max_abs(s):
     tag = s[0]
     if tag == "T":
-        return float(np.max(np.abs(s[5]))) if s[5].size else 0.0
+        return _finite_max(s[5])
     if tag == "A":
-        return float(np.max(np.abs(s[3]))) if s[3].size else 0.0
+        return _finite_max(s[3])
     if tag in ("L", "U"):
         return max([max_abs(e) for e in s[1]] + [0.0])
     return 0.0
